@@ -66,24 +66,26 @@ def _fixed_point(ctx: Ctx, fn: loader.Func, v: ast.AST) -> Optional[Tuple[bool, 
     if isinstance(v, ast.Call):
         nm = A.call_name(v) or ""
         args_dec = [a for a in v.args if _is_decimal_type(A.type_of(ctx, m, a))]
-        if nm == "format" and len(v.args) == 2 and args_dec[:1] == v.args[:1]:
-            spec = A.const_value(v.args[1])
-            return (spec == "f", f"format(x, {spec!r})")
+        if nm == "format" and len(v.args) == 2:
+            subj = v.args[0]
+            lossy = [x.func.attr for x in ast.walk(subj) if isinstance(x, ast.Call) and isinstance(x.func, ast.Attribute)
+                     and x.func.attr in LOSSY_DECIMAL_METHODS]
+            if args_dec[:1] == v.args[:1] or lossy or _is_decimal_type(_type_anywhere(ctx, fn, subj)):
+                spec = A.const_value(v.args[1])
+                if lossy:
+                    return (False, f"format(x.{lossy[0]}(), {spec!r}) -- {LOSSY_DECIMAL_METHODS[lossy[0]]}")
+                return (spec == "f", f"format(x, {spec!r})")
         if nm in ("str", "repr", "float", "int") and args_dec:
             return (False, f"{nm}(Decimal)")
         if isinstance(v.func, ast.Attribute) and v.func.attr == "format" and isinstance(v.func.value, ast.Constant) and args_dec:
             tmpl = v.func.value.value
             return (":f}" in tmpl and "{}" not in tmpl, f"{tmpl!r}.format(Decimal)")
         if args_dec and nm:
-            # helper function: accept when its body returns format(param, 'f')
+            # helper function: accept when its body returns format(param, 'f') of the untouched parameter
             for callee in A.call_index(ctx).callees(m, v):
                 f2 = ctx.repo.funcs.get(callee)
                 if f2 is not None:
-                    rets = [r for r in C.walk_shallow(f2.node) if isinstance(r, ast.Return) and r.value is not None]
-                    ok = bool(rets) and all(isinstance(r.value, ast.Call) and A.call_name(r.value) == "format"
-                                            and A.const_value(r.value.args[1] if len(r.value.args) > 1 else None) == "f"
-                                            for r in rets)
-                    return (ok, f"helper {callee.rsplit('.', 1)[-1]}()")
+                    return _helper_renders_fixed_point(ctx, f2)
             return (False, f"{nm}(Decimal) (unknown helper)")
         return None
     if isinstance(v, ast.JoinedStr):
@@ -101,6 +103,32 @@ def _fixed_point(ctx: Ctx, fn: loader.Func, v: ast.AST) -> Optional[Tuple[bool, 
     if _is_decimal_type(A.type_of(ctx, m, v)):
         return (False, "raw Decimal (rendered by str() in the transport)")
     return None
+
+
+LOSSY_DECIMAL_METHODS = {"normalize": "rounds to the precision of the active decimal context", "quantize": "rounds to the given exponent",
+                         "__round__": "rounds", "to_integral_value": "rounds to an integer", "to_integral": "rounds to an integer"}
+
+
+def _helper_renders_fixed_point(ctx: Ctx, f2: loader.Func) -> Tuple[bool, str]:
+    ctx.analysed_funcs.add(f2.qualname)
+    name = f2.qualname.rsplit(".", 1)[-1]
+    rets = [r for r in C.walk_shallow(f2.node) if isinstance(r, ast.Return) and r.value is not None]
+    if not rets:
+        return (False, f"helper {name}() returns nothing")
+    for r in rets:
+        v = r.value
+        if not (isinstance(v, ast.Call) and A.call_name(v) == "format" and len(v.args) == 2 and A.const_value(v.args[1]) == "f"):
+            return (False, f"helper {name}() returns {ast.unparse(v)[:50]}")
+        subject = v.args[0]
+        for x in ast.walk(subject):
+            if isinstance(x, ast.Call) and isinstance(x.func, ast.Attribute) and x.func.attr in LOSSY_DECIMAL_METHODS:
+                return (False, f"helper {name}() formats value.{x.func.attr}(), which {LOSSY_DECIMAL_METHODS[x.func.attr]}: the value transmitted "
+                               "can differ from the value passed")
+            if isinstance(x, ast.Call) and A.call_name(x) in ("round", "float", "int"):
+                return (False, f"helper {name}() formats {A.call_name(x)}(value)")
+        if not (isinstance(subject, ast.Name) and subject.id in f2.params):
+            return (False, f"helper {name}() formats {ast.unparse(subject)[:40]}, not its parameter")
+    return (True, f"helper {name}(): format(value, 'f')")
 
 
 def _request_maps(fn: loader.Func) -> Dict[str, List[ast.Call]]:
@@ -239,9 +267,17 @@ def rule_outbound(ctx: Ctx) -> None:
                 if isinstance(s, ast.Assign) and isinstance(s.value, ast.Call):
                     nm = A.call_name(s.value)
                     if nm == "format" and len(s.value.args) == 2:
-                        form = (A.const_value(s.value.args[1]) == "f", f"format(v, {A.const_value(s.value.args[1])!r})")
+                        lossy = [x.func.attr for x in ast.walk(s.value.args[0]) if isinstance(x, ast.Call) and isinstance(x.func, ast.Attribute)
+                                 and x.func.attr in LOSSY_DECIMAL_METHODS]
+                        form = (A.const_value(s.value.args[1]) == "f" and not lossy,
+                                f"format({ast.unparse(s.value.args[0])[:30]}, {A.const_value(s.value.args[1])!r})")
                     elif nm in ("str", "repr", "float"):
                         form = (False, f"{nm}(v)")
+                    else:
+                        for callee2 in A.call_index(ctx).callees(hf.module, s.value):
+                            f3 = ctx.repo.funcs.get(callee2)
+                            if f3 is not None:
+                                form = _helper_renders_fixed_point(ctx, f3)
                 elif isinstance(s, ast.Assign) and isinstance(s.value, ast.JoinedStr):
                     fv = [p for p in s.value.values if isinstance(p, ast.FormattedValue)]
                     spec = "".join(A.const_value(x) or "" for x in fv[0].format_spec.values) if fv and fv[0].format_spec else ""
